@@ -29,6 +29,8 @@ pub enum Case {
     /// the same on version-1 encodings (single-level index) of the file
     ExploreV1(FileSpec),
     HistoryV1 { spec: FileSpec, ops: Vec<Op> },
+    /// history over a reader whose clones share one file position (like `&File`): clones must still be independent
+    HistoryShared { spec: FileSpec, ops: Vec<Op> },
 }
 
 pub fn deep_conf() -> BoxedStrategy<WConf> {
@@ -38,6 +40,24 @@ pub fn deep_conf() -> BoxedStrategy<WConf> {
         prop_oneof![Just(Some(1usize)), Just(Some(2)), Just(None), Just(Some(usize::MAX))],
     )
         .prop_map(|(codec, levels, interval)| WConf { codec, level: 0, block_size: Some(1024), interval, levels })
+        .boxed()
+}
+
+/// histories in which a cursor and its clones are used alternately
+pub fn clone_heavy_history(max_len: usize) -> BoxedStrategy<Vec<Op>> {
+    let piece = prop_oneof![
+        4 => gen::cursor_op().prop_map(|o| vec![o]),
+        2 => (1usize..=25).prop_map(|n| vec![Op::Next; n]),
+        2 => (1usize..=25).prop_map(|n| vec![Op::Prev; n]),
+        2 => Just(vec![Op::CloneSwitch]),
+        3 => Just(vec![Op::Swap]),
+    ];
+    proptest::collection::vec(piece, 2..=(max_len / 5).max(3))
+        .prop_map(move |ps| {
+            let mut v: Vec<Op> = ps.into_iter().flatten().collect();
+            v.truncate(max_len);
+            v
+        })
         .boxed()
 }
 
@@ -177,11 +197,21 @@ pub fn explore_with<R: std::io::Read + std::io::Seek + Clone>(
 /// Interprets a random history against the model. Returns whether a relative move crossed a
 /// boundary between two deepest-level index blocks (levels >= 2) followed by an absolute move.
 pub fn run_history(bytes: &[u8], entries: &Entries, ops: &[Op], leaf_of_entry: Option<&[usize]>) -> Check<(bool, u64)> {
+    run_history_on(rd::cursor(bytes)?, entries, ops, leaf_of_entry)
+}
+
+/// The same over any reader type (e.g. one whose clones share their position).
+pub fn run_history_on<R: std::io::Read + std::io::Seek + Clone>(
+    c: grenad::ReaderCursor<R>,
+    entries: &Entries,
+    ops: &[Op],
+    leaf_of_entry: Option<&[usize]>,
+) -> Check<(bool, u64)> {
     let m = Model::new(entries);
     let n = entries.len();
-    let mut c = rd::cursor(bytes)?;
+    let mut c = c;
     let mut pos = Pos::Fresh;
-    let mut parked: Vec<(MemCursor, Pos)> = Vec::new();
+    let mut parked: Vec<(grenad::ReaderCursor<R>, Pos)> = Vec::new();
     let mut crossed = false;
     let mut crossed_then_abs = false;
     let mut trace: Vec<String> = Vec::new();
@@ -216,6 +246,14 @@ pub fn run_history(bytes: &[u8], entries: &Entries, ops: &[Op], leaf_of_entry: O
                 let clone = c.clone();
                 parked.push((std::mem::replace(&mut c, clone), pos));
                 trace.push("clone".into());
+                continue;
+            }
+            Op::Swap => {
+                if let Some((pc, ppos)) = parked.pop() {
+                    parked.push((std::mem::replace(&mut c, pc), pos));
+                    pos = ppos;
+                    trace.push("swap-with-parked".into());
+                }
                 continue;
             }
         };
@@ -316,6 +354,12 @@ impl Prop for C03 {
             )
             .shrink(600),
             stage(
+                "shared-position-reader",
+                (prop_oneof![2 => gen::file_spec_light(tier), 1 => explore_case(40)], clone_heavy_history(hist_len)).prop_map(|(spec, ops)| Case::HistoryShared { spec, ops }),
+                tier.pick(1200, 15_000),
+            )
+            .shrink(400),
+            stage(
                 "v1",
                 prop_oneof![
                     1 => explore_case(tier.pick(10, 16)).prop_map(Case::ExploreV1),
@@ -339,7 +383,7 @@ impl Prop for C03 {
     }
 
     fn health(&self, tier: Tier) -> Vec<(&'static str, u64)> {
-        vec![("explore:nontrivial", tier.pick(20, 600)), ("history:crossed-then-abs", tier.pick(100, 3000)), ("v1:multi-block", tier.pick(100, 3000))]
+        vec![("explore:nontrivial", tier.pick(20, 600)), ("history:crossed-then-abs", tier.pick(100, 3000)), ("v1:multi-block", tier.pick(100, 3000)), ("shared:clone-and-swap", tier.pick(300, 4000))]
     }
 
     fn assumptions(&self) -> Vec<String> {
@@ -383,6 +427,25 @@ impl Prop for C03 {
                     obs.class("v1:multi-block");
                 }
                 obs.sample = Some(json!({"kind": "v1", "conf": spec.conf.label(), "entries": entries.len(), "data_blocks": nd}));
+                Ok(())
+            }
+            Case::HistoryShared { spec, ops } => {
+                let entries = spec.src.entries();
+                let bytes = write_file(&spec.conf, &entries)?;
+                let src = crate::ioinstr::SharedSource::new(std::rc::Rc::new(bytes));
+                let reader = rd::guard("Reader::new", || grenad::Reader::new(src))?;
+                let c = rd::guard("into_cursor", || reader.into_cursor())?;
+                let (_, judged) = run_history_on(c, &entries, ops, None)
+                    .map_err(|f| Fail::new(format!("{}:shared-position-reader", f.signature), format!("with a reader whose clones share their position: {}", f.msg)))?;
+                let swaps = ops.iter().filter(|o| matches!(o, Op::Swap)).count();
+                let clones = ops.iter().filter(|o| matches!(o, Op::CloneSwitch)).count();
+                obs.add("history_judged", judged);
+                obs.add("history_ops", ops.len() as u64);
+                obs.nontrivial = clones >= 1 && swaps >= 1 && entries.len() >= 10;
+                if obs.nontrivial {
+                    obs.class("shared:clone-and-swap");
+                }
+                obs.sample = Some(json!({"kind": "history-shared-position", "conf": spec.conf.label(), "entries": entries.len(), "ops": ops.len(), "clones": clones, "swaps": swaps}));
                 Ok(())
             }
             Case::Explore(spec) => {
